@@ -28,7 +28,7 @@ else:
 INC += ["-I%s" % REPO, "-I%s/harness" % ROOT, "-I%s/models" % ROOT]
 DEFS = ["-DNDEBUG", "-DCPPCMS_BOOST_ALL_NO_LIB", "-Dcppcms_EXPORTS", "-DCPPCMS_VERIF"]
 CLANG_FLAGS = ["-std=c++11", "-O1", "-fno-vectorize", "-fno-slp-vectorize", "-fno-unroll-loops",
-               "-fno-strict-aliasing", "-fno-builtin", "-fno-access-control", "-Wno-everything", "-S", "-emit-llvm"]
+               "-fno-strict-aliasing", "-fno-builtin", "-fno-PIE", "-fno-PIC", "-fno-access-control", "-Wno-everything", "-S", "-emit-llvm"]
 CBMC_BASE = ["--unwinding-assertions", "--no-malloc-may-fail", "--drop-unused-functions",
              "--object-bits", "12", "--slice-formula"]
 # exception-object construction is never the subject: backtrace capture is skipped (DESIGN 2.2)
